@@ -348,8 +348,10 @@ def _r13_4(prog: Program, res: Result) -> None:
                    "the loop is left early only by returning a candidate" if ok else
                    f"`{short(early[0], 40)}` leaves the scan before every candidate was examined; candidates arrive in tree-walk order, "
                    "so an anchored match can come after a later-positioned one")
-        tail = fn.node.body[-1]
-        ok = isinstance(tail, ast.Return) and (tail.value is None or norm(tail.value) == "None")
+        from ..model import returns_after
+        tails = returns_after(fn.node, loop)
+        tail = tails[0] if tails else loop
+        ok = all(t.value is None or norm(t.value) == "None" for t in tails)     # no return at all = None as well
         res.decide(ok, "R13.4", fn.loc(tail), fn.fq, f"{name}: result when no candidate is anchored", "None" if ok else "falling out of the scan no longer answers None")
 
 
